@@ -20,6 +20,7 @@
    C06-substituted-block-hash-skips-activity, exhibited by the correspondence op). *)
 From Coq Require Import NArith List.
 From LC Require Import LatestHashes CheckPointsProofs Filters FiltersProofs.
+From LC Require HashesUpdate HashesUpdateProofs.
 Import ListNotations.
 Open Scope N_scope.
 
@@ -96,3 +97,24 @@ Example C06_accepts_authentic_batch :
           (mkMsg 1 [7; 8] [501; 502])
   = Ok (mkFO 0 2 None (Some (1, 2, [(502, false)])) true (Some 3)).
 Proof. vm_compute. reflexivity. Qed.
+
+(* where the expected filter hashes come from (BlockFilterHashes handler, Model/HashesUpdate.v): an accepted message only
+   appends to a peer's list - nothing accepted earlier is rewritten - and a first batch is anchored at the finalized
+   check point (by its parent hash or by containing the check point itself) *)
+Theorem C06_peer_hashes_append_only_and_anchored :
+  forall last_proved fin_number fcp start parent hs l inner' next,
+    HashesUpdate.update_latest last_proved fin_number fcp start parent hs l = Ok (inr (inner', next)) ->
+    (exists ext, inner' = HashesUpdate.l_inner l ++ ext) /\
+    (HashesUpdate.l_inner l = [] -> (start <= fin_number /\ HashesUpdate.nthN hs (fin_number - start) = Some fcp) \/ (start = fin_number + 1 /\ parent = fcp)).
+Proof. exact HashesUpdateProofs.update_latest_extends. Qed.
+Print Assumptions C06_peer_hashes_append_only_and_anchored.
+
+(* the hashes cached between two finalized check points only grow at their end, never beyond the next check point, and
+   start right after the lower check point with that check point as parent *)
+Theorem C06_cached_hashes_append_only_and_anchored :
+  forall cn nn ccp ncp cached start parent hs cached' next,
+    cn < start -> start <= nn -> HashesUpdate.len cached <= nn - cn ->
+    HashesUpdate.update_cached cn nn ccp ncp cached start parent hs = Ok (inr (cached', next)) ->
+    (exists ext, cached' = cached ++ ext) /\ HashesUpdate.len cached' <= nn - cn /\ (cached = [] -> start = cn + 1 /\ parent = ccp).
+Proof. exact HashesUpdateProofs.update_cached_extends. Qed.
+Print Assumptions C06_cached_hashes_append_only_and_anchored.
